@@ -726,3 +726,62 @@ func (m *Machine) errorText(v Iface) (string, bool) {
 	}
 	return "", false
 }
+
+func init() {
+	// verifClosure(name, "fv1", v1, "fv2", v2, ...) builds a closure of the anonymous function <name>
+	// of the harness package, binding its free variables by name.
+	R("verifClosure", func(m *Machine, a []Value) Value {
+		name := a[0].(string)
+		var fn *ssa.Function
+		hp := m.ex.ex.hpkg
+		var walk func(f *ssa.Function)
+		walk = func(f *ssa.Function) {
+			for _, an := range f.AnonFuncs {
+				if an.Name() == name {
+					fn = an
+				}
+				walk(an)
+			}
+		}
+		for _, mem := range hp.Members {
+			if f, ok := mem.(*ssa.Function); ok {
+				walk(f)
+			}
+			if t, ok := mem.(*ssa.Type); ok {
+				for _, tt := range []types.Type{t.Type(), types.NewPointer(t.Type())} {
+					ms := m.prog.MethodSets.MethodSet(tt)
+					for i := 0; i < ms.Len(); i++ {
+						if f := m.prog.MethodValue(ms.At(i)); f != nil {
+							walk(f)
+						}
+					}
+				}
+			}
+		}
+		if fn == nil {
+			m.fail("unsupported", "verifClosure: no anonymous function named "+name)
+		}
+		env := make([]Value, len(fn.FreeVars))
+		rest := a[1].(*SliceV).A
+		for i, fv := range fn.FreeVars {
+			found := false
+			for k := 0; k+1 < len(rest); k += 2 {
+				if rest[k].(Iface).V.(string) == fv.Name() {
+					v := rest[k+1].(Iface).V
+					if pt, ok := fv.Type().(*types.Pointer); ok {
+						// captured by reference unless the harness already passed a pointer of that type
+						if hv, isPtr := rest[k+1].(Iface).T.(*types.Pointer); !isPtr || !types.Identical(hv, pt) {
+							v = newCell(v)
+						}
+					}
+					env[i] = v
+					found = true
+				}
+			}
+			if !found {
+				m.fail("unsupported", "verifClosure: free variable "+fv.Name()+" of "+name+" not bound by the harness")
+			}
+		}
+		return Iface{T: fn.Signature, V: &Closure{Fn: fn, Env: env}}
+	})
+}
